@@ -48,22 +48,26 @@ Print Assumptions C11_ZShape_inverse.
 
 (* ---- 2. z is monotone in y, in the direction of the term (increasing term: z increasing; decreasing: z decreasing) *)
 Theorem C11_Arc_z_monotone : forall s e h y1 y2 : R, 0 < h -> 0 < y1 -> y1 <= y2 -> y2 < h ->
-  (s < e -> Arc_tsukamoto s e h y1 <= Arc_tsukamoto s e h y2) /  (e < s -> Arc_tsukamoto s e h y2 <= Arc_tsukamoto s e h y1).
+  (s < e -> Arc_tsukamoto s e h y1 <= Arc_tsukamoto s e h y2) /\
+  (e < s -> Arc_tsukamoto s e h y2 <= Arc_tsukamoto s e h y1).
 Proof. intros s e h y1 y2 Hh H1 H12 H2; split; intros Hd; [apply Arc_z_monotone_inc | apply Arc_z_monotone_dec]; assumption. Qed.
 Print Assumptions C11_Arc_z_monotone.
 
 Theorem C11_Concave_z_monotone : forall i e h y1 y2 : R, 0 < h -> 0 < y1 -> y1 <= y2 -> y2 < h ->
-  (i < e -> Concave_tsukamoto i e h y1 <= Concave_tsukamoto i e h y2) /  (e < i -> Concave_tsukamoto i e h y2 <= Concave_tsukamoto i e h y1).
+  (i < e -> Concave_tsukamoto i e h y1 <= Concave_tsukamoto i e h y2) /\
+  (e < i -> Concave_tsukamoto i e h y2 <= Concave_tsukamoto i e h y1).
 Proof. intros i e h y1 y2 Hh H1 H12 H2; split; intros Hd; [apply Concave_z_monotone_inc | apply Concave_z_monotone_dec]; assumption. Qed.
 Print Assumptions C11_Concave_z_monotone.
 
 Theorem C11_Ramp_z_monotone : forall s e h y1 y2 : R, 0 < h -> 0 < y1 -> y1 <= y2 -> y2 < h ->
-  (s < e -> Ramp_tsukamoto s e h y1 <= Ramp_tsukamoto s e h y2) /  (e < s -> Ramp_tsukamoto s e h y2 <= Ramp_tsukamoto s e h y1).
+  (s < e -> Ramp_tsukamoto s e h y1 <= Ramp_tsukamoto s e h y2) /\
+  (e < s -> Ramp_tsukamoto s e h y2 <= Ramp_tsukamoto s e h y1).
 Proof. intros s e h y1 y2 Hh H1 H12 H2; split; intros Hd; [apply Ramp_z_monotone_inc | apply Ramp_z_monotone_dec]; assumption. Qed.
 Print Assumptions C11_Ramp_z_monotone.
 
 Theorem C11_Sigmoid_z_monotone : forall i s h y1 y2 : R, 0 < h -> 0 < y1 -> y1 <= y2 -> y2 < h ->
-  (0 < s -> Sigmoid_tsukamoto i s h y1 <= Sigmoid_tsukamoto i s h y2) /  (s < 0 -> Sigmoid_tsukamoto i s h y2 <= Sigmoid_tsukamoto i s h y1).
+  (0 < s -> Sigmoid_tsukamoto i s h y1 <= Sigmoid_tsukamoto i s h y2) /\
+  (s < 0 -> Sigmoid_tsukamoto i s h y2 <= Sigmoid_tsukamoto i s h y1).
 Proof. intros i s h y1 y2 Hh H1 H12 H2; split; intros Hd; [apply Sigmoid_z_monotone_inc | apply Sigmoid_z_monotone_dec]; assumption. Qed.
 Print Assumptions C11_Sigmoid_z_monotone.
 
@@ -103,7 +107,12 @@ Print Assumptions C11_Concave_z_in_support.
 
 (* Sigmoid: unbounded support; z is on the side of the inflection that y's half of the height selects *)
 Theorem C11_Sigmoid_z_side : forall i s h y : R, 0 < y < h ->
-  (0 < s -> (y < h / 2 -> Sigmoid_tsukamoto i s h y < i) /            (y = h / 2 -> Sigmoid_tsukamoto i s h y = i) /            (h / 2 < y -> i < Sigmoid_tsukamoto i s h y)) /  (s < 0 -> (y < h / 2 -> i < Sigmoid_tsukamoto i s h y) /            (y = h / 2 -> Sigmoid_tsukamoto i s h y = i) /            (h / 2 < y -> Sigmoid_tsukamoto i s h y < i)).
+  (0 < s -> (y < h / 2 -> Sigmoid_tsukamoto i s h y < i) /\
+            (y = h / 2 -> Sigmoid_tsukamoto i s h y = i) /\
+            (h / 2 < y -> i < Sigmoid_tsukamoto i s h y)) /\
+  (s < 0 -> (y < h / 2 -> i < Sigmoid_tsukamoto i s h y) /\
+            (y = h / 2 -> Sigmoid_tsukamoto i s h y = i) /\
+            (h / 2 < y -> Sigmoid_tsukamoto i s h y < i)).
 Proof. intros i s h y Hy; split; intros Hd; [apply Sigmoid_z_side_inc | apply Sigmoid_z_side_dec]; assumption. Qed.
 Print Assumptions C11_Sigmoid_z_side.
 
@@ -125,7 +134,8 @@ Print Assumptions C11_tsukamoto_refused_iff_not_monotonic.
 
 (* the class-level table (is_monotonic() on a default instance, `tsukamoto` in the class __dict__) *)
 Theorem C11_term_table : 
-  forallb (fun r => match r with (_, _, _, m, t) => Bool.eqb m t end) term_table = true /  map (fun r => match r with (n, _, _, _, _) => n end)
+  forallb (fun r => match r with (_, _, _, m, t) => Bool.eqb m t end) term_table = true /\
+  map (fun r => match r with (n, _, _, _, _) => n end)
       (filter (fun r => match r with (_, _, _, m, _) => m end) term_table)
   = ["Arc"; "Concave"; "Ramp"; "Sigmoid"; "SShape"; "ZShape"]%string.
 Proof. exact (conj term_table_flags_agree term_table_monotonic_names). Qed.
@@ -171,7 +181,8 @@ Print Assumptions C11_elementwise.
 (* ---- the condition start < end of SShape/ZShape is necessary: with start > end the composition is
         constant (0 resp. h) on all of (0,h), so the inverse law fails for every y *)
 Theorem C11_SZ_reversed_constant : forall s e h y : R, e < s -> 0 < y < h ->
-  SShape_membership s e h (SShape_tsukamoto s e h y) = 0 /  ZShape_membership s e h (ZShape_tsukamoto s e h y) = h.
+  SShape_membership s e h (SShape_tsukamoto s e h y) = 0 /\
+  ZShape_membership s e h (ZShape_tsukamoto s e h y) = h.
 Proof. intros s e h y Hd Hy; split; [apply SShape_reversed_not_inverse | apply ZShape_reversed_not_inverse]; assumption. Qed.
 Print Assumptions C11_SZ_reversed_constant.
 Theorem C11_SShape_reversed_refuted : exists s e h y : R,
@@ -185,59 +196,42 @@ Print Assumptions C11_ZShape_reversed_refuted.
 
 (* ---- non-vacuity: concrete parameters (height 1/2, both directions), a concrete y, the computed z,
         and the membership at that z *)
-Example C11_Ramp_example_increasing :
-  Ramp_tsukamoto 0 2 (1 / 2) (1 / 8) = 1 / 2 /\ Ramp_membership 0 2 (1 / 2) (1 / 2) = 1 / 8.
-Proof. apply example_via_inverse; [rewrite Ramp_tsukamoto_R; lra | apply C11_Ramp_inverse; lra]. Qed.
-Print Assumptions C11_Ramp_example_increasing.
-Example C11_Ramp_example_decreasing :
-  Ramp_tsukamoto 2 0 (1 / 2) (1 / 8) = 3 / 2 /\ Ramp_membership 2 0 (1 / 2) (3 / 2) = 1 / 8.
-Proof. apply example_via_inverse; [rewrite Ramp_tsukamoto_R; lra | apply C11_Ramp_inverse; lra]. Qed.
-Print Assumptions C11_Ramp_example_decreasing.
+Example C11_Ramp_example :
+  (Ramp_tsukamoto 0 2 (1 / 2) (1 / 8) = 1 / 2 /\ Ramp_membership 0 2 (1 / 2) (1 / 2) = 1 / 8) /\
+  (Ramp_tsukamoto 2 0 (1 / 2) (1 / 8) = 3 / 2 /\ Ramp_membership 2 0 (1 / 2) (3 / 2) = 1 / 8).
+Proof. split; (apply example_via_inverse; [rewrite Ramp_tsukamoto_R; lra | apply C11_Ramp_inverse; lra]). Qed.
+Print Assumptions C11_Ramp_example.
 
-Example C11_Concave_example_increasing :
-  Concave_tsukamoto 0 1 (1 / 2) (1 / 8) = -2 /\ Concave_membership 0 1 (1 / 2) (-2) = 1 / 8.
-Proof. apply example_via_inverse; [rewrite Concave_tsukamoto_R; lra | apply C11_Concave_inverse; lra]. Qed.
-Print Assumptions C11_Concave_example_increasing.
-Example C11_Concave_example_decreasing :
-  Concave_tsukamoto 1 0 (1 / 2) (1 / 8) = 3 /\ Concave_membership 1 0 (1 / 2) 3 = 1 / 8.
-Proof. apply example_via_inverse; [rewrite Concave_tsukamoto_R; lra | apply C11_Concave_inverse; lra]. Qed.
-Print Assumptions C11_Concave_example_decreasing.
+Example C11_Concave_example :
+  (Concave_tsukamoto 0 1 (1 / 2) (1 / 8) = -2 /\ Concave_membership 0 1 (1 / 2) (-2) = 1 / 8) /\
+  (Concave_tsukamoto 1 0 (1 / 2) (1 / 8) = 3 /\ Concave_membership 1 0 (1 / 2) 3 = 1 / 8).
+Proof. split; (apply example_via_inverse; [rewrite Concave_tsukamoto_R; lra | apply C11_Concave_inverse; lra]). Qed.
+Print Assumptions C11_Concave_example.
 
-Example C11_Arc_example_increasing :
-  Arc_tsukamoto 0 2 (1 / 2) (3 / 10) = 2 / 5 /\ Arc_membership 0 2 (1 / 2) (2 / 5) = 3 / 10.
-Proof. apply example_via_inverse; [exact Arc_example_inc | apply C11_Arc_inverse; lra]. Qed.
-Print Assumptions C11_Arc_example_increasing.
-Example C11_Arc_example_decreasing :
-  Arc_tsukamoto 2 0 (1 / 2) (3 / 10) = 8 / 5 /\ Arc_membership 2 0 (1 / 2) (8 / 5) = 3 / 10.
-Proof. apply example_via_inverse; [exact Arc_example_dec | apply C11_Arc_inverse; lra]. Qed.
-Print Assumptions C11_Arc_example_decreasing.
+Example C11_Arc_example :
+  (Arc_tsukamoto 0 2 (1 / 2) (3 / 10) = 2 / 5 /\ Arc_membership 0 2 (1 / 2) (2 / 5) = 3 / 10) /\
+  (Arc_tsukamoto 2 0 (1 / 2) (3 / 10) = 8 / 5 /\ Arc_membership 2 0 (1 / 2) (8 / 5) = 3 / 10).
+Proof. split; (apply example_via_inverse; [first [exact Arc_example_inc | exact Arc_example_dec] | apply C11_Arc_inverse; lra]). Qed.
+Print Assumptions C11_Arc_example.
 
-Example C11_Sigmoid_example_increasing :
-  Sigmoid_tsukamoto 0 1 (1 / 2) (1 / 6) = - ln 2 /\ Sigmoid_membership 0 1 (1 / 2) (- ln 2) = 1 / 6.
-Proof. apply example_via_inverse; [exact Sigmoid_example_inc | apply C11_Sigmoid_inverse; lra]. Qed.
-Print Assumptions C11_Sigmoid_example_increasing.
-Example C11_Sigmoid_example_decreasing :
-  Sigmoid_tsukamoto 0 (-1) (1 / 2) (1 / 6) = ln 2 /\ Sigmoid_membership 0 (-1) (1 / 2) (ln 2) = 1 / 6.
-Proof. apply example_via_inverse; [exact Sigmoid_example_dec | apply C11_Sigmoid_inverse; lra]. Qed.
-Print Assumptions C11_Sigmoid_example_decreasing.
+Example C11_Sigmoid_example :
+  (Sigmoid_tsukamoto 0 1 (1 / 2) (1 / 6) = - ln 2 /\ Sigmoid_membership 0 1 (1 / 2) (- ln 2) = 1 / 6) /\
+  (Sigmoid_tsukamoto 0 (-1) (1 / 2) (1 / 6) = ln 2 /\ Sigmoid_membership 0 (-1) (1 / 2) (ln 2) = 1 / 6).
+Proof. split; (apply example_via_inverse; [first [exact Sigmoid_example_inc | exact Sigmoid_example_dec] | apply C11_Sigmoid_inverse; lra]). Qed.
+Print Assumptions C11_Sigmoid_example.
 
 (* both branches of the S/Z inverse (y below and above height/2) *)
-Example C11_SShape_example_low :
-  SShape_tsukamoto 0 2 (1 / 2) (1 / 16) = 1 / 2 /\ SShape_membership 0 2 (1 / 2) (1 / 2) = 1 / 16.
-Proof. apply example_via_inverse; [exact SShape_example_low | apply C11_SShape_inverse; lra]. Qed.
-Print Assumptions C11_SShape_example_low.
-Example C11_SShape_example_high :
-  SShape_tsukamoto 0 2 (1 / 2) (7 / 16) = 3 / 2 /\ SShape_membership 0 2 (1 / 2) (3 / 2) = 7 / 16.
-Proof. apply example_via_inverse; [exact SShape_example_high | apply C11_SShape_inverse; lra]. Qed.
-Print Assumptions C11_SShape_example_high.
-Example C11_ZShape_example_low :
-  ZShape_tsukamoto 0 2 (1 / 2) (1 / 16) = 3 / 2 /\ ZShape_membership 0 2 (1 / 2) (3 / 2) = 1 / 16.
-Proof. apply example_via_inverse; [exact ZShape_example_low | apply C11_ZShape_inverse; lra]. Qed.
-Print Assumptions C11_ZShape_example_low.
-Example C11_ZShape_example_high :
-  ZShape_tsukamoto 0 2 (1 / 2) (7 / 16) = 1 / 2 /\ ZShape_membership 0 2 (1 / 2) (1 / 2) = 7 / 16.
-Proof. apply example_via_inverse; [exact ZShape_example_high | apply C11_ZShape_inverse; lra]. Qed.
-Print Assumptions C11_ZShape_example_high.
+Example C11_SShape_example :
+  (SShape_tsukamoto 0 2 (1 / 2) (1 / 16) = 1 / 2 /\ SShape_membership 0 2 (1 / 2) (1 / 2) = 1 / 16) /\
+  (SShape_tsukamoto 0 2 (1 / 2) (7 / 16) = 3 / 2 /\ SShape_membership 0 2 (1 / 2) (3 / 2) = 7 / 16).
+Proof. split; (apply example_via_inverse; [first [exact SShape_example_low | exact SShape_example_high] | apply C11_SShape_inverse; lra]). Qed.
+Print Assumptions C11_SShape_example.
+
+Example C11_ZShape_example :
+  (ZShape_tsukamoto 0 2 (1 / 2) (1 / 16) = 3 / 2 /\ ZShape_membership 0 2 (1 / 2) (3 / 2) = 1 / 16) /\
+  (ZShape_tsukamoto 0 2 (1 / 2) (7 / 16) = 1 / 2 /\ ZShape_membership 0 2 (1 / 2) (1 / 2) = 7 / 16).
+Proof. split; (apply example_via_inverse; [first [exact ZShape_example_low | exact ZShape_example_high] | apply C11_ZShape_inverse; lra]). Qed.
+Print Assumptions C11_ZShape_example.
 
 (* the shape-level hypotheses are inhabited, and the refusal is observable on a non-monotonic term *)
 Example C11_shape_example :
